@@ -36,6 +36,9 @@ pub fn oracle(case: &SpCase, res: &SpResult, soft: &mut Vec<(String, String)>) -
     let app_writes: Vec<(u64, u64)> = res.app.iter().filter_map(|a| if let crate::sim::app::AppEv::Wrote(n) = a.ev { Some((a.t_us, n as u64)) } else { None }).collect();
     let app_write_times: BTreeSet<u64> = res.app.iter().filter(|a| matches!(a.ev, crate::sim::app::AppEv::Wrote(_))).map(|a| a.t_us).collect();
 
+    // segments are cut ahead of their transmission and the probe flag is decided then: give the model the write
+    // times so that it takes the proven size at the earliest possible cut (cf. C06)
+    { let mut cum = 0u64; for (t, n) in &app_writes { cum += *n; obs.writes.push((*t, cum)); } }
     let mut t_arm_next: Option<u64> = None;
     // (instant, number of peer packets delivered at it, seq of the last one if it carried data)
     let mut rx_now: (u64, u32, Option<u16>) = (u64::MAX, 0, None);
@@ -104,7 +107,9 @@ pub fn oracle(case: &SpCase, res: &SpResult, soft: &mut Vec<(String, String)>) -
                     if k != rk && !resegmented && !ambiguous {
                         // the timed-out segment may have been an oversize probe whose expiry is by
                         // design not a real RTO (re-segmentation follows); detect via length change of rk
-                        let probe_expired = obs.segs.get(&rk).is_some_and(|g| g.lens.windows(2).any(|w| w[0] != w[1]));
+                        // (… or with the same length, when the peer's own payloads have meanwhile proven the probe's size:
+                        // then only the number of its transmissions tells — cf. C06, K21)
+                        let probe_expired = obs.segs.get(&rk).is_some_and(|g| g.lens.windows(2).any(|w| w[0] != w[1]) || (g.first_payload.len() > g.mss_at_first && g.lens.len() >= case.sock.probe_retx as usize + 2));
                         if !probe_expired {
                             return (Some(("sp/more-than-one-segment-after-rto".into(), format!("log #{}: data seq {} sent although seq {} had just been retransmitted by timeout and no new data has been acknowledged since", r.idx, p.seq, first.wrapping_add(rk as u16)))), vec![], false, 0);
                         }
